@@ -685,6 +685,70 @@ Theorem C11_extra_args_exec : forall ec fd vs extra st,
   (length (f_params fd) <= length vs)%nat -> finish_call ec fd (vs ++ extra) st = finish_call ec fd vs st.
 Proof. exact finish_call_extra_args. Qed.
 
+(* ------------------------------------------------------------------------------------------------ *)
+(* 2.5 RETURN leaves the function at once, from any depth                                             *)
+Section Return2.
+  Variables Name Atom Op Val World Bnd FId Err : Type.
+  Variable L : lang Name Atom Op Val World Bnd FId Err.
+  Variable funs : FId -> option (fundef Name Atom Op Val FId).
+  Notation gcfg := (cfg Name World Bnd).
+  Notation RETS := (rets Name Atom Op Val World Bnd FId Err L funs).
+
+  (* rets n b c v c' (ScriptCorP) : the run of block b from c reaches a RETURN(e) - in b itself, or in the chosen branch of an IF,
+     in pass k+1 of a WHILE or FOR of b, and so on to any depth - having evaluated e to v, leaving c'.  Every rule quantifies over
+     ALL texts `post` behind the RETURN / behind the statement that contains it.  Then the block ends right there with RETURN raised
+     and Result bound to v: nothing of any `post` is executed *)
+  Theorem C11_return_anywhere : forall n b (c : gcfg) v c', RETS n b c v c' ->
+    sem L funs n b c = Fin (Ret, bind_val L (l_result_name L) v c').
+  Proof. exact (rets_sem Name Atom Op Val World Bnd FId Err L funs). Qed.
+  (* ... and the call yields v, its frame dropped (without any RETURN: what Result is bound to - C11_return_keeps_result) *)
+  Theorem C11_return_value : forall n fd vs (c : gcfg) v c',
+    (forall x, l_name_eqb L x x = true) -> (forall w, l_view_of L (l_bnd_val L w) = BVal w) ->
+    RETS n (fd_body fd) (set_env c (ScriptSem.bind_params L (fd_params fd) 0 vs (env c))) v c' ->
+    call_body L (sem L funs n) fd vs c = Fin (v, set_env c' (tl (env c'))).
+  Proof. exact (call_returns Name Atom Op Val World Bnd FId Err L funs). Qed.
+  (* RETURN out of a FOR (WHILE: C11_return_from_loops): the loop ends in that pass, no increment, no further test *)
+  Theorem C11_return_from_for : forall blk cnd inc body line k left (c ck : gcfg) v c1 c2,
+    fpasses Name Atom Op Val World Bnd FId Err L funs blk cnd inc body k c ck -> (k < left)%nat ->
+    eval_opt L funs blk (l_vzero L) cnd ck = Fin (v, c1) -> l_truth L v = true -> blk body c1 = Fin (Ret, c2) ->
+    for_sem L funs blk left cnd inc body line c = Fin (Ret, c2).
+  Proof. exact (for_return Name Atom Op Val World Bnd FId Err L funs). Qed.
+End Return2.
+
+(* the machine: the call is over when the RETURN is reached; with function_needs_return_value (m) the value of e is pushed; the
+   callee's scope is popped; break_flag is back to what it was before the call (0: emb) *)
+Theorem C11_return_exec : forall ft, ft_ok ft = true -> forall n fd vs m (c : cfg (list ch) song vv) v c',
+  wf c -> toks_ok (f_body fd) = true ->
+  mrets ft n (prog_of (f_body fd)) (set_env c (Script.bind_params (f_params fd) 0 vs (env c))) v c' ->
+  finish_call (exec_s n) fd vs (emb ft m c) = Ok (if m then Some v else None, emb ft m (set_env c' (tl (env c')))).
+Proof. exact return_exec. Qed.
+
+(* ------------------------------------------------------------------------------------------------ *)
+(* 2.6 the caller's variables                                                                         *)
+(* What the code does: there is one stack of scopes; a call pushes a scope, binds the parameters in it, pops it at the end.       *)
+(* WRITES (declaration, `X = e` - also when X names a global -, X++, parameters, Result) always go to the current (innermost)    *)
+(* scope: C11_local_writes_only.  READS search the stack from the innermost scope outwards: a callee sees its own bindings first, *)
+(* then its caller's, then the globals (C11_scope_reads).  So nothing a callee does can change a variable of its caller or a      *)
+(* global: after the call all scopes of the caller are what they were.                                                            *)
+Theorem C11_scope_reads : forall Name Atom Op Val World Bnd FId Err (L : lang Name Atom Op Val World Bnd FId Err) x fr e,
+  lookup_frame L x fr = None -> lookup L x (fr :: e) = lookup L x e.
+Proof. exact lookup_through_frame. Qed.
+(* the machine: a call statement leaves every scope as it was, break_flag 0 ... *)
+Theorem C11_scope_call_exec : forall ft, ft_ok ft = true -> forall n id args m (c : cfg (list ch) song vv) st',
+  wf c -> sem ML (funs_of ft) (S n) (prog_of [SCall id args]) c <> Stuck ->
+  exec_s (S n) [SCall id args] (Ok (emb ft m c)) = Ok st' -> ss_scopes st' = env c /\ st_flag st' = 0.
+Proof. exact call_scopes_exec. Qed.
+(* ... so does exec_value on an expression with any calls inside ... *)
+Theorem C11_scope_value_exec : forall ft, ft_ok ft = true -> forall n e m (c : cfg (list ch) song vv) v st',
+  wf c -> eval_opt ML (funs_of ft) (sem ML (funs_of ft) n) (Expr.SInt 0) (oexpr_of e) c <> Stuck ->
+  exec_value_o (exec_s n) e (emb ft m c) = Ok (v, st') -> ss_scopes st' = env c /\ st_flag st' = 0.
+Proof. exact value_scopes_exec. Qed.
+(* ... and any block of tokens - a function body with its locals, assignments to global names, nested calls - changes at most the
+   scope it runs in: all scopes below are untouched *)
+Theorem C11_scope_block_exec : forall ft, ft_ok ft = true -> forall n toks m (c : cfg (list ch) song vv) st',
+  wf c -> toks_ok toks = true -> sem ML (funs_of ft) n (prog_of toks) c <> Stuck ->
+  exec_s n toks (Ok (emb ft m c)) = Ok st' -> tl (ss_scopes st') = tl (env c).
+Proof. exact block_scopes_exec. Qed.
 
 Print Assumptions C11_for_unroll_text.
 Print Assumptions C11_loop_unroll_exec.
@@ -720,3 +784,11 @@ Print Assumptions C11_extra_args_ignored.
 Print Assumptions C11_defaults_exec.
 Print Assumptions C11_defaults_entry_exec.
 Print Assumptions C11_extra_args_exec.
+Print Assumptions C11_return_anywhere.
+Print Assumptions C11_return_value.
+Print Assumptions C11_return_from_for.
+Print Assumptions C11_return_exec.
+Print Assumptions C11_scope_reads.
+Print Assumptions C11_scope_call_exec.
+Print Assumptions C11_scope_value_exec.
+Print Assumptions C11_scope_block_exec.
